@@ -12,7 +12,7 @@
 static void output_byte(LHALZSDecoder *decoder, uint8_t *buf, size_t *buf_len, uint8_t b)
 {
 	(void) buf; (void) b;
-	CHECK(*buf_len < MAXREAD, "every output_byte call has room in the max_read-sized buffer");
+	CHECK(*buf_len < lha_lzs_decoder.max_read, "every output_byte call has room in the max_read-sized buffer");
 	++*buf_len;
 	decoder->ringbuf_pos = (decoder->ringbuf_pos + 1) % RING_BUFFER_SIZE;
 }
@@ -22,12 +22,12 @@ void harness_read(void)
 	LHALZSDecoder d;
 	u8 out[MAXREAD];
 	size_t n;
-	CHECK(lha_lzs_decoder.max_read == MAXREAD, "harness buffer is exactly max_read bytes");
+	/* room is measured against the DECLARED max_read (lha_decoder_new sizes the real buffer from it), whatever its value */
 	ASSUME(pos < 2048 && bits <= 32);
 	d.ringbuf_pos = pos; d.bit_stream_reader.bits = bits; d.bit_stream_reader.bit_buffer = bitbuf;
 	d.bit_stream_reader.callback = any_cb; d.bit_stream_reader.callback_data = 0;
 	n = lha_lzs_read(&d, out);
-	CHECK(n <= MAXREAD, "read returns at most max_read");
+	CHECK(n <= lha_lzs_decoder.max_read, "read returns at most max_read");
 	CHECK(d.ringbuf_pos < 2048 && d.bit_stream_reader.bits <= 32, "state invariant re-established");
 	if (n == 17) WITNESS("maximal copy");
 	WITNESS("end");
